@@ -193,7 +193,7 @@ func (eval Evaluator) MultiplyByDiagMatrix(ctIn *rlwe.Ciphertext, matrix LinearT
 	keys := utils.GetSortedKeys(matrix.Vec)
 
 	var state bool
-	if keys[0] == 0 {
+	if len(keys) > 0 && keys[0] == 0 {
 		state = true
 		keys = keys[1:]
 	}
@@ -307,6 +307,13 @@ func (eval Evaluator) MultiplyByDiagMatrixBSGS(ctIn *rlwe.Ciphertext, matrix Lin
 
 	// Computes the N2 rotations indexes of the non-zero rows of the diagonalized DFT matrix for the baby-step giant-step algorithm
 	index, _, _ := matrix.BSGSIndex()
+
+	// No non-zero diagonal: the matrix is zero.
+	if len(index) == 0 {
+		opOut.Value[0].Zero()
+		opOut.Value[1].Zero()
+		return
+	}
 
 	BuffCt.Value[0].CopyLvl(levelQ, ctIn.Value[0])
 	BuffCt.Value[1].CopyLvl(levelQ, ctIn.Value[1])
